@@ -21,7 +21,9 @@ MLS = ("registry",)
 THEOREMS = ["C04_refines_partial", "C04_refines_outside_exceptions", "C04_exceptions_are_the_only_difference",
             "C04_queue_position_refuted", "C04_limit_spares_held_names", "C04_limit_rerequest", "C04_full_statement_refuted",
             "C04_single_primary", "C04_invariant", "C04_reserved", "C04_queries_agree", "C04_signals_before_reply",
-            "C04_reply_code_meaning", "C04_no_assertion_reached"]
+            "C04_reply_code_meaning", "C04_no_assertion_reached",
+            "C04_unique_names", "C04_string_table_faithful", "C04_driver_refines", "C04_policy_gate", "C04_error_changes_nothing",
+            "C04_reload_keeps_names", "C04_raw_queries", "C04_transaction_fifo"]
 
 NPROC = vlib.NPROC
 
@@ -160,11 +162,104 @@ def gen_targeted():
     return cases
 
 
+# ---- driver layer: own-policy gate, ReloadConfig, raw query strings ------------------------------
+XPROBES = ["x" + hx(":1.0"), "x" + hx(":1.2"), "x" + hx(":1.4"), "x" + hx(":0.1"), "x" + hx(".."), "x"]
+POLICY_NAMES = ["com.example", "com.example.A", "com.example.B", "com.exampleX.y", "com.exampl.e", "org.x.y-z", "a.b", "a.b.c", "a.bc"]
+
+
+def rule(allow, kind, name=None):
+    return ("a" if allow else "d") + ("*" if kind == "*" else kind + hx(name))
+
+
+def gen_rules(rnd):
+    n = rnd.choice((0, 1, 2, 2, 3, 3, 4))
+    rs = []
+    for _ in range(n):
+        k = rnd.choice("*NNPP")
+        rs.append(rule(rnd.random() < 0.6, k, None if k == "*" else rnd.choice(["com.example", "com.example.A", "com.example.B", "a.b", "org.x", "org.x.y-z", "com"])))
+    return "+".join(rs) if rs else "-"
+
+
+def gen_policy_random(rnd, length, maxconn=5):
+    """random history under a random own / own_prefix policy, with ReloadConfig events changing policy and limit"""
+    pool = rnd.sample(POLICY_NAMES, rnd.choice((2, 3, 4)))
+    limit = rnd.choice((512,) * 6 + (2, 3, 4))
+    rules = gen_rules(rnd)
+    ev = ["C", "H0", "M0"]
+    nconn, live = 1, [0]
+    for _ in range(length):
+        r = rnd.random()
+        if r < 0.12 and nconn < maxconn:
+            ev += ["C", "H%d" % nconn] + (["M%d" % nconn] if rnd.random() < 0.4 else [])
+            live.append(nconn)
+            nconn += 1
+        elif r < 0.62:
+            name = rnd.choice(pool) if rnd.random() < 0.92 else rnd.choice(INVALID)
+            ev.append(R(rnd.choice(live), name, rnd.randrange(8)))
+        elif r < 0.74:
+            ev.append(L(rnd.choice(live), rnd.choice(pool)))
+        elif r < 0.82:
+            cands = [c for c in live if c != 0]
+            if cands:
+                c = rnd.choice(cands)
+                ev.append("D%d" % c)
+                live.remove(c)
+        else:
+            ev.append("W%d,%s,%d" % (rnd.choice(live), gen_rules(rnd), rnd.choice((512, 512, 1, 2, 3, 4))))
+    return {"limit": limit, "rules": rules, "probes": ["S" + hx(n) for n in pool[:3]] + rnd.sample(XPROBES, 3), "events": ev}
+
+
+def gen_policy_targeted():
+    A, B, X, P = "com.example.A", "com.example.B", "com.exampleX.y", "com.example"
+    three = ["C", "H0", "M0", "C", "H1", "M1", "C", "H2"]
+    pr = ["S" + hx(n) for n in (A, B, X, P)] + XPROBES[:4]
+    cases = []
+
+    def add(limit, rules, ev, probes=pr):
+        cases.append({"limit": limit, "rules": rules, "probes": probes, "events": three + ev})
+    every = [R(1, n, 0) for n in POLICY_NAMES] + [R(2, n, 7) for n in POLICY_NAMES]
+    # own_prefix: the name itself and names below it, not names that merely start with the same letters
+    for rules in (rule(True, "P", P), rule(True, "*") + "+" + rule(False, "P", P), rule(True, "P", "com"), rule(True, "P", "a.b"),
+                  rule(True, "N", A), rule(True, "*") + "+" + rule(False, "N", A), rule(False, "*") + "+" + rule(True, "N", A),
+                  rule(True, "N", A) + "+" + rule(False, "*"), rule(True, "P", P) + "+" + rule(False, "N", A) + "+" + rule(True, "N", B), "-",
+                  rule(False, "P", P) + "+" + rule(True, "P", A), rule(True, "P", A) + "+" + rule(False, "P", P)):
+        add(512, rules, every)
+    # the gate sits after the name checks and before the limit; nothing is refused by policy that is refused for syntax
+    add(1, rule(False, "*"), [R(1, A, 0), R(1, "foo", 0), R(1, ":1.1", 0), R(1, "org.freedesktop.DBus", 0), L(1, A)])
+    add(2, rule(True, "N", A), [R(1, A, 0), R(1, B, 0), R(1, A, 1), R(2, B, 0), R(2, A, 4), R(2, A, 0)])
+    # ReloadConfig: names held stay; the new policy applies to the next request, even a flag refresh by the owner;
+    # a waiter is promoted although the policy no longer lets it ask; the new limit applies at once
+    add(512, rule(True, "*"), [R(1, A, 1), R(2, A, 0), "W0,%s,512" % rule(False, "N", A), R(1, A, 0), R(2, A, 2), R(0, A, 0), L(1, A), R(1, A, 0),
+                               "W1,%s,512" % rule(True, "*"), R(1, A, 0), L(2, A)])
+    add(512, rule(True, "*"), [R(1, A, 0), R(1, B, 0), "W0,%s,2" % rule(True, "*"), R(1, X, 0), R(1, A, 1), L(1, A), R(1, A, 0), "W0,%s,3" % rule(True, "*"), R(1, A, 0), R(1, X, 0)])
+    add(512, rule(True, "*"), [R(1, A, 0), "D1", "W0,-,512", R(2, A, 0), "W2,%s,512" % rule(True, "P", P), R(2, A, 0), R(2, X, 0)])
+    # ReloadConfig before Hello is refused
+    cases.append({"limit": 512, "rules": "a*", "probes": pr, "events": ["C", "H0", "M0", "C", "W1,-,512", R(0, A, 0), "H1", "W1,-,512", R(0, B, 0)]})
+    return cases
+
+
+def gen_raw_targeted():
+    """raw strings as query arguments: unique names of connections that exist, have left, never existed; junk"""
+    A = VALID[0]
+    probes = ["S" + hx(A)] + ["x" + hx(s) for s in (":1.0", ":1.1", ":1.2", ":1.3", ":1.10", ":1.01", ":1.", ":2.0", ":0.0", "1.1", ":", "", "..", "a", "a.b.", "org.freedesktop.DBus",
+                                                     "org.freedesktop.DBus.", "org.freedesktop.dbus", LONG_BAD)]
+    ev = ["C", "H0", "M0", "C", "C", "H2", "H1", R(1, A, 0), R(2, A, 0), "D1", "C", "H3", "C", "H4", "D2", "C", "H5", "H5", "D3", R(4, ":1.1", 0), L(4, ":1.4")]
+    many = ["C", "H0", "M0"] + sum((["C", "H%d" % i] + (["D%d" % i] if i % 3 else []) for i in range(1, 13)), []) + [R(12, A, 0), R(3, A, 0), "D12"]
+    return [{"limit": 512, "rules": "a*", "probes": probes, "events": ev},
+            {"limit": 512, "rules": "a*", "probes": ["S" + hx(A)] + ["x" + hx(":1.%d" % i) for i in (0, 3, 9, 10, 11, 12, 13)], "events": many}]
+
+
+def as_case(t):
+    """(limit, probes, events) of the first-round generators -> case with the permissive policy and a few raw probes"""
+    limit, probes, ev = t
+    return {"limit": limit, "rules": "a*", "probes": list(probes) + XPROBES[:3], "events": list(ev)}
+
+
 def load_corpus():
     out = []
     for p in sorted(glob.glob(os.path.join(vlib.VERIF, "corpus", "C04", "*.json"))):
         d = json.load(open(p))
-        out.append((int(d["limit"]), list(d["probes"]), list(d["events"])))
+        out.append({"limit": int(d["limit"]), "rules": d.get("rules", "a*"), "probes": list(d["probes"]), "events": list(d["events"])})
     return out
 
 
@@ -184,7 +279,7 @@ def canon(res):
         items = o.split(",")
         items = sorted(range(len(items)), key=lambda i: (int(items[i].split(">", 1)[0]), i))
         o = ",".join(o.split(",")[i] for i in items)
-    if n != "-":
+    if n != "-" and not n.startswith(("e:", "?")):
         n = "+".join(sorted(n.split("+")))
     return o + ";" + q + ";" + n
 
@@ -236,15 +331,95 @@ def classify_exception(ev, m, l):
     return None
 
 
-def replay_of(case, step, impl, blocks):
-    limit, probes, ev = case
-    d = {"limit": limit, "probes": probes, "events": ev, "failing_step": step, "event": ev[step] if step is not None and step < len(ev) else None,
-         "how": "python3 harness/py/registry_run.py build/dbus/bin/dbus-daemon %d %s %s" % (limit, ",".join(probes) or "-", " ".join(ev))}
+def replay_of(case, step, impl, blocks, leg=None):
+    limit, rules, probes, ev = case["limit"], case["rules"], case["probes"], case["events"]
+    d = {"limit": limit, "rules": rules, "probes": probes, "events": ev, "failing_step": step, "event": ev[step] if step is not None and step < len(ev) else None,
+         "how": "python3 harness/py/registry_run.py build/dbus/bin/dbus-daemon %d '%s' %s %s" % (limit, rules, ",".join(probes) or "-", " ".join(ev))}
+    if leg:
+        d["leg"] = leg
     if step is not None and impl is not None and step < len(impl):
         d["implementation"] = impl[step]
     if step is not None and blocks is not None and step < len(blocks):
         d["model"], d["spec_as_implemented"], d["spec_literal"] = blocks[step][0], blocks[step][1], blocks[step][2]
     return d
+
+
+LEGS = {"abstract": ("Registry.step (names as keys, connections as indices)", "run"),
+        "driver": ("Driver.dstep (raw strings, own-policy gate, ReloadConfig)", "drun")}
+
+
+def judge(rep, known, stats, case, leg, mline, ires, ierr, count):
+    """one leg of one history: implementation vs model, then model vs specification.  Returns (validated, interesting)."""
+    limit, ev = case["limit"], case["events"]
+    blocks = parse_model(mline) if not mline.startswith(("?", "!")) else None
+    if blocks is None or len(blocks) != len(ev):
+        rep.violation("model driver output unparsable (%s leg) for history %s: %s" % (leg, " ".join(ev)[:200], mline[:200]),
+                      {"names": "ml/registry/driver.ml", "leg": leg, "events": ev}, found_input=False)
+        return False, False
+    bad_step = None
+    for i, e in enumerate(ev):
+        if i >= len(ires):
+            bad_step = i
+            break
+        m, s, l, trig = blocks[i]
+        if "FAULT" in m.split(";")[0] or (not ires[i].endswith(";-;-") and "FAULT" in m):
+            rep.violation("model reports FAULT (assertion path or ill-formed event) at event %d `%s` (%s leg)" % (i, e, leg),
+                          dict(replay_of(case, i, ires, blocks, leg), names="generator / " + LEGS[leg][0]), found_input=False)
+            return False, False
+        if not agree(ires[i], m):
+            bad_step = i
+            break
+    if bad_step is not None:
+        i = bad_step
+        if i >= len(ires):
+            rep.violation("history %s: the implementation side stopped at event %d `%s`: %s" % (" ".join(ev)[:200], i, ev[i], ierr),
+                          replay_of(case, i, ires, blocks, leg))
+            return False, False
+        m, s, l, trig = blocks[i]
+        what = "event %d `%s` of history [%s] (limit %d, rules %s, %s leg): implementation %s | model %s" % (
+            i, ev[i], " ".join(ev[:i + 1])[-400:], limit, case["rules"], leg, ires[i], m)
+        if agree(ires[i], l) or agree(ires[i], s):
+            which = "literal specification" if agree(ires[i], l) else "specification (as-implemented variant)"
+            rep.violation(what + " -- the implementation agrees with the %s, the model does not" % which,
+                          dict(replay_of(case, i, ires, blocks, leg), names="correspondence %s vs dbus-daemon" % LEGS[leg][0]), found_input=False)
+        else:
+            rep.violation(what + " | specification %s -- the implementation's behaviour is not what the ownership rules prescribe" % l,
+                          replay_of(case, i, ires, blocks, leg))
+        return False, False
+    if ierr:
+        rep.violation("history %s: implementation side error after the last event: %s" % (" ".join(ev)[:200], ierr), replay_of(case, len(ev) - 1, ires, blocks, leg))
+        return False, False
+    # implementation = model on the whole history; now model vs specification, event by event
+    interesting = False
+    for i, e in enumerate(ev):
+        m, s, l, trig = blocks[i]
+        mo = m.split(";")[0]
+        if count:
+            stats["events"] += 1
+            for tok in mo.split(","):
+                t = tok.split(">", 1)[-1]
+                if t.startswith("reply:") or t.startswith("err:"):
+                    stats["reply"][e[0] + ":" + t] = stats["reply"].get(e[0] + ":" + t, 0) + 1
+                if t.startswith("lost:"):
+                    stats["handover"] += 1
+                    interesting = True
+            if e[0] == "D" and re.search(r"noc:(?!3a)", mo):
+                stats["disconnect_with_names"] += 1
+        if m != s:
+            rep.violation("event %d `%s` of [%s] (%s leg): code and model give %s, the specification (with the recorded exception) %s" % (i, e, " ".join(ev[:i + 1])[-300:], leg, m, s),
+                          replay_of(case, i, ires, blocks, leg))
+            break
+        if m != l:
+            fid = classify_exception(e, m, l)
+            if fid and fid in known and trig:
+                rep.known(known[fid], {"limit": limit, "events": ev[:i + 1]})
+                if count:
+                    stats["exceptions"][fid] = stats["exceptions"].get(fid, 0) + 1
+            else:
+                rep.violation("event %d `%s` of [%s] (%s leg): code and model give %s, the specification says %s (not a recorded finding)" % (i, e, " ".join(ev[:i + 1])[-300:], leg, m, l),
+                              replay_of(case, i, ires, blocks, leg))
+                break
+    return True, interesting
 
 
 def run(ctx):
@@ -261,22 +436,37 @@ def run(ctx):
     if ctx.get("replay"):
         d = json.load(open(ctx["replay"]))
         d = d.get("replay", d)
-        add("replay", [(int(d["limit"]), list(d["probes"]), list(d["events"]))])
+        add("replay", [{"limit": int(d["limit"]), "rules": d.get("rules", "a*"), "probes": list(d["probes"]), "events": list(d["events"])}])
     else:
         add("corpus", load_corpus())
-        add("targeted", gen_targeted())
-        add("exhaustive-2", gen_exhaustive(2))
+        add("targeted", [as_case(t) for t in gen_targeted()])
+        add("policy-targeted", gen_policy_targeted())
+        add("raw-targeted", gen_raw_targeted())
+        add("exhaustive-2", [as_case(t) for t in gen_exhaustive(2)])
         if quick:
             ex3 = gen_exhaustive(3, flagset=(0, 1, 2, 3, 4, 6))
-            add("exhaustive-3-sample", rnd.sample(ex3, 1200))
-            add("random", [gen_random(rnd, rnd.choice((12, 20, 30))) for _ in range(1500)])
+            add("exhaustive-3-sample", [as_case(t) for t in rnd.sample(ex3, 1000)])
+            add("random", [as_case(gen_random(rnd, rnd.choice((12, 20, 30)))) for _ in range(1200)])
+            add("policy-random", [gen_policy_random(rnd, rnd.choice((12, 20, 30))) for _ in range(500)])
         else:
-            add("exhaustive-3", gen_exhaustive(3))
-            add("random", [gen_random(rnd, rnd.choice((12, 20, 30, 45))) for _ in range(40000)])
-    lines = ["run %d %s %s" % (l, ",".join(p) or "-", " ".join(ev)) for l, p, ev in cases]
-    model, mcr = vlib.run_lines(info["model_registry"], lines)
-    for line, err in mcr:
+            add("exhaustive-3", [as_case(t) for t in gen_exhaustive(3)])
+            add("random", [as_case(gen_random(rnd, rnd.choice((12, 20, 30, 45)))) for _ in range(30000)])
+            add("policy-random", [gen_policy_random(rnd, rnd.choice((12, 20, 30, 45))) for _ in range(10000)])
+    # which legs: the abstract registry model knows neither policy nor reload
+    def has_abstract(c):
+        return c["rules"] == "a*" and not any(e[0] == "W" for e in c["events"])
+    alines, aidx, dlines = [], [], []
+    for i, c in enumerate(cases):
+        ev = " ".join(c["events"])
+        dlines.append("drun %d %s %s %s" % (c["limit"], c["rules"], ",".join(p for p in c["probes"] if p[0] in "Sx") or "-", ev))
+        if has_abstract(c):
+            aidx.append(i)
+            alines.append("run %d %s %s" % (c["limit"], ",".join(p for p in c["probes"] if p[0] in "US") or "-", ev))
+    amodel, mcr1 = vlib.run_lines(info["model_registry"], alines)
+    dmodel, mcr2 = vlib.run_lines(info["model_registry"], dlines)
+    for line, err in mcr1 + mcr2:
         rep.violation("extracted model failed on `%s`: %s" % (line[:200], err[-300:]), {"input": line, "names": "model driver"}, found_input=False)
+    amodel = dict(zip(aidx, amodel))
     # Private snapshot of the daemon and its libdbus, taken under the build lock: other checks (or a new commit in
     # /repo) may relink build/dbus/bin/dbus-daemon while this run is still spawning daemons.
     snap = tempfile.mkdtemp(prefix="c04_daemon_")
@@ -288,7 +478,7 @@ def run(ctx):
             lib = os.path.realpath(os.path.join(vlib.DBUS_BUILD, "lib", "libdbus-1.so.3"))
             shutil.copy2(lib, os.path.join(snap, "libdbus-1.so.3"))
         os.environ["LD_LIBRARY_PATH"] = snap + ((":" + old_ld) if old_ld else "")   # the binary has a RUNPATH, so this wins
-        jobs = [(exe, l, p, ev) for l, p, ev in cases]
+        jobs = [(exe, c["limit"], c["rules"], c["probes"], c["events"]) for c in cases]
         with multiprocessing.get_context("fork").Pool(NPROC) as pool:
             impl = pool.map(registry_run.worker, jobs, chunksize=4)
     finally:
@@ -298,115 +488,49 @@ def run(ctx):
             os.environ["LD_LIBRARY_PATH"] = old_ld
         shutil.rmtree(snap, ignore_errors=True)
 
-    stats = {"events": 0, "reply": {}, "exceptions": {}, "handover": 0, "disconnect_with_names": 0, "limit_refusals": 0, "invalid_name_refusals": 0}
+    stats = {"events": 0, "reply": {}, "exceptions": {}, "handover": 0, "disconnect_with_names": 0}
     nontrivial = set()
-    validated = 0
-    for idx, (case, mline, (ires, ierr, ibad)) in enumerate(zip(cases, model, impl)):
-        limit, probes, ev = case
+    validated = {"abstract": 0, "driver": 0}
+    for idx, (case, (ires, names, ierr, ibad)) in enumerate(zip(cases, impl)):
+        ev = case["events"]
         if ibad:
             rep.violation("dbus-daemon crashed / sanitizer report during history %s: %s" % (" ".join(ev)[:300], ibad[-700:]),
                           dict(replay_of(case, len(ires), ires, None), stderr=ibad))
             continue
-        blocks = parse_model(mline) if not mline.startswith(("?", "!")) else None
-        if blocks is None or len(blocks) != len(ev):
-            rep.violation("model driver output unparsable for history %s: %s" % (" ".join(ev)[:200], mline[:200]),
-                          {"input": lines[idx], "names": "ml/registry/driver.ml"}, found_input=False)
-            continue
-        ires = [canon(x) for x in ires]
-        bad_step = None
-        for i, e in enumerate(ev):
-            if i >= len(ires):
-                bad_step = i
-                break
-            m, s, l, trig = blocks[i]
-            if "FAULT" in m:
-                rep.violation("model reports FAULT (assertion path or ill-formed event) at event %d `%s`" % (i, e),
-                              dict(replay_of(case, i, ires, blocks), names="generator / Registry.step"), found_input=False)
-                bad_step = -1
-                break
-            if not agree(ires[i], m):
-                bad_step = i
-                break
-        if bad_step == -1:
-            continue
-        if bad_step is not None:
-            i = bad_step
-            if i >= len(ires):
-                rep.violation("history %s: the implementation side stopped at event %d `%s`: %s" % (" ".join(ev)[:200], i, ev[i], ierr),
-                              replay_of(case, i, ires, blocks))
-                continue
-            m, s, l, trig = blocks[i]
-            what = "event %d `%s` of history [%s] (limit %d): implementation %s | model %s" % (i, ev[i], " ".join(ev[:i + 1])[-400:], limit, ires[i], m)
-            if agree(ires[i], l) or agree(ires[i], s):
-                which = "literal specification" if agree(ires[i], l) else "specification (as-implemented variant)"
-                rep.violation(what + " -- the implementation agrees with the %s, the model does not" % which,
-                              dict(replay_of(case, i, ires, blocks), names="correspondence Registry.step vs dbus-daemon"), found_input=False)
-            else:
-                rep.violation(what + " | specification %s -- the implementation's behaviour is not what the ownership rules prescribe" % l,
-                              replay_of(case, i, ires, blocks))
-            continue
-        if ierr:
-            rep.violation("history %s: implementation side error after the last event: %s" % (" ".join(ev)[:200], ierr), replay_of(case, len(ev) - 1, ires, blocks))
-            continue
-        validated += 1
-        # implementation = model on the whole history; now model vs specification, event by event
-        interesting = False
-        for i, e in enumerate(ev):
-            m, s, l, trig = blocks[i]
-            stats["events"] += 1
-            mo = m.split(";")[0]
-            for tok in mo.split(","):
-                t = tok.split(">", 1)[-1]
-                if t.startswith("reply:") or t.startswith("err:"):
-                    stats["reply"][e[0] + ":" + t] = stats["reply"].get(e[0] + ":" + t, 0) + 1
-                    if t == "err:LimitsExceeded":
-                        stats["limit_refusals"] += 1
-                    if t == "err:InvalidArgs":
-                        stats["invalid_name_refusals"] += 1
-                if t.startswith("lost:"):
-                    stats["handover"] += 1
-                    interesting = True
-            if e[0] == "D" and "noc:S" in mo:
-                stats["disconnect_with_names"] += 1
-            if m != s:
-                # implementation = model, but not the as-implemented specification: unrecorded deviation
-                rep.violation("event %d `%s` of [%s]: code and model give %s, the specification (with the recorded exceptions) %s" % (i, e, " ".join(ev[:i + 1])[-300:], m, s),
-                              replay_of(case, i, ires, blocks))
-                break
-            if m != l:
-                fid = classify_exception(e, m, l)
-                if fid and fid in known and trig:
-                    rep.known(known[fid], {"limit": limit, "events": ev[:i + 1]})
-                    stats["exceptions"][fid] = stats["exceptions"].get(fid, 0) + 1
-                else:
-                    rep.violation("event %d `%s` of [%s]: code and model give %s, the specification says %s (not a recorded finding)" % (i, e, " ".join(ev[:i + 1])[-300:], m, l),
-                                  replay_of(case, i, ires, blocks))
-                    break
-        if interesting:
-            nontrivial.add((limit, tuple(ev)))
+        ok, interesting = judge(rep, known, stats, case, "driver", dmodel[idx], [canon(registry_run.raw_result(x, lambda p: p[0] in "Sx")) for x in ires], ierr, True)
+        validated["driver"] += ok
+        if ok and idx in amodel:
+            ok2, _ = judge(rep, known, stats, case, "abstract", amodel[idx], [canon(registry_run.canon_result(x, names)) for x in ires], ierr, False)
+            validated["abstract"] += ok2
+        if ok and interesting:
+            nontrivial.add((case["limit"], case["rules"], tuple(ev)))
     dist = {}
     for i in range(len(cases)):
         dist[origin[i]] = dist.get(origin[i], 0) + 1
     step = max(1, len(cases) // 10)
     rep.coverage.update({
         "evaluations": len(cases), "distinct_nontrivial": len(nontrivial),
-        "rule": "histories start with connection 0 registering and subscribing to NameOwnerChanged; targeted boundary histories; every 2-operation "
-                "sequence (and, thorough, every 3-operation sequence) of RequestName(8 flag sets)/ReleaseName/disconnect by three registered connections "
-                "on one name; random histories of 12-45 events over <= 6 connections, 1-3 names (incl. 255-byte and near-bus names), limits 1,2,3,4,512, "
-                "7% invalid names, 10% undefined flag bits; non-trivial = at least one NameLost (hand-over) occurred; distinct = distinct (limit, event list)",
-        "samples": [{"limit": cases[i][0], "events": cases[i][2], "model_last": (parse_model(model[i]) or [("?",)])[-1][0] if not model[i].startswith(("?", "!")) else model[i]}
-                    for i in range(0, len(cases), step)][:10],
-        "input_distribution": dist, "traces_validated_against_impl": validated, "events_compared": stats["events"],
+        "rule": "histories start with connection 0 registering and subscribing to NameOwnerChanged; targeted boundary histories (ownership rules, own/own_prefix "
+                "policies incl. prefix boundaries and rule order, ReloadConfig changing policy and limit, raw query strings incl. unique names of present / departed / "
+                "never existing connections); every 2-operation sequence (and, thorough, every 3-operation sequence) of RequestName(8 flag sets)/ReleaseName/disconnect "
+                "by three registered connections on one name; random histories of 12-45 events over <= 6 connections, 1-4 names (incl. 255-byte and near-bus names), "
+                "limits 1,2,3,4,512, 7% invalid names, 10% undefined flag bits, and random policies with reloads; non-trivial = at least one NameLost (hand-over) occurred; "
+                "distinct = distinct (limit, rules, event list)",
+        "samples": [{"limit": cases[i]["limit"], "rules": cases[i]["rules"], "events": cases[i]["events"]} for i in range(0, len(cases), step)][:10],
+        "input_distribution": dist, "traces_validated_against_impl": validated["driver"], "traces_validated_abstract_leg": validated["abstract"],
+        "events_compared": stats["events"],
         "reply_histogram": stats["reply"], "recorded_exceptions_seen": stats["exceptions"], "handovers": stats["handover"],
         "disconnects_releasing_wellknown_names": stats["disconnect_with_names"],
         "disagreements_checked": len(rep.violations), "exhaustive": False,
-        "explanation": "theorems: invariants and refinement of the specification for every history; correspondence: daemon = model on every generated history "
-                       "(messages per socket in order, GetNameOwner/NameHasOwner/ListQueuedOwners per probe, ListNames as a set, after every event)",
+        "explanation": "theorems: invariants and refinement of the specification for every history, at the registry level and at the driver level (raw strings); "
+                       "correspondence: daemon = Driver.dstep on every generated history, comparing the raw strings on the wire (messages per socket in order, "
+                       "GetNameOwner/NameHasOwner/ListQueuedOwners per probe string, ListNames as a set, after every event), and daemon = Registry.step in the abstract "
+                       "vocabulary on the histories without policy/reload",
     })
     rep.assumptions = [
-        "coq/Registry/Registry.v is hand-written after bus/services.c, bus/driver.c, bus/connection.c; flag and reply constants and the bus name come from the generated tables",
-        "permissive <policy> (own=*), no SELinux/AppArmor, no activation, default connection limits; OOM paths are not modelled (C14)",
-        "unique names are abstract in the model; strings of the form ':N.M' are never used as raw query arguments, the harness maps them to connection indices",
+        "coq/Registry/Registry.v and Driver.v are hand-written after bus/services.c, bus/driver.c, bus/connection.c; flag and reply constants and the bus name come from the generated tables",
+        "one uid, <policy context=\"default\"> only (the own-rule decision itself is C06's model Policy.check_can_own); no SELinux/AppArmor, no activation, default connection limits; OOM paths are not modelled (C14)",
+        "a fresh daemon per history (next_minor_number starts at 0, major 1); fewer than 2^31 Hellos",
         "NameOwnerChanged delivery is modelled for one fixed match rule per connection; the matchmaker itself belongs to C07",
         "harness/py/registry_run.py and harness/py/rawbus.py are trusted glue; synchronisation by round trips on every socket",
     ]
